@@ -168,6 +168,41 @@ class ImageBatch(DataTensor):
                     for start, end in zip([0] + indices, indices + [len(grids)]):
                         split_grids.append(grids[start:end])
                 return split_grids
+        # Functions which reorder or select images along the batch dimension
+        if func in (torch.flip, Tensor.flip, torch.flipud, Tensor.flipud):
+            if func in (torch.flipud, Tensor.flipud):
+                dims = (0,)
+            else:
+                dims = kwargs.get("dims", args[1:])
+                if len(dims) == 1 and isinstance(dims[0], (tuple, list)):
+                    dims = dims[0]
+            if any(int(d) in (0, -args[0].ndim) for d in dims):
+                return list(reversed(grids[0]))
+        if func in (torch.roll, Tensor.roll):
+            shifts = kwargs.get("shifts", args[1] if len(args) > 1 else None)
+            dims = kwargs.get("dims", args[2] if len(args) > 2 else None)
+            if shifts is not None and dims is not None:
+                if isinstance(shifts, int):
+                    shifts = (shifts,)
+                if isinstance(dims, int):
+                    dims = (dims,)
+                shift = sum(int(n) for n, d in zip(shifts, dims) if int(d) in (0, -args[0].ndim))
+                num = len(grids[0])
+                if num > 0 and shift % num != 0:
+                    return [grids[0][(i - shift) % num] for i in range(num)]
+        if func in (torch.index_select, Tensor.index_select):
+            index = kwargs.get("index", args[2] if len(args) > 2 else None)
+            if index is not None and int(kwargs.get("dim", args[1] if len(args) > 1 else 0)) in (
+                0,
+                -args[0].ndim,
+            ):
+                return [grids[0][int(i)] for i in index]
+        if func in (torch.narrow, Tensor.narrow):
+            if len(args) > 3 and int(args[1]) in (0, -args[0].ndim):
+                start = int(args[2])
+                if start < 0:
+                    start += len(grids[0])
+                return list(grids[0][start : start + int(args[3])])
         return grids[0]
 
     @classmethod
